@@ -9,12 +9,12 @@
      k = "pd":    a = text, r, b                                      -> outcome = Percent!Dec(a)
      k = "date":  n = day number, a = <<second of day>>, s = string   -> s = ImfFixdate of that instant
    Date records are sorted by day; the calendar walks forward by HttpDate!Month_Jump (silent steps)
-   until the record's day lies in the current month. *)
+   until the record's day lies in the current month (whole years by HttpDate!Year_Jump while it lies beyond the current year). *)
 EXTENDS Naturals, Sequences, TLC, Json, IOUtils
 
-VARIABLES day, wd, d, m, y, ms, mw, dps, hh, mi, ss, sod, tps,   \* HttpDate's calendar and clock
+VARIABLES day, wd, d, m, y, ms, mw, ys, yw, dps, hh, mi, ss, sod, tps,   \* HttpDate's calendar and clock
           l, bad
-cal == <<day, wd, d, m, y, ms, mw, dps, hh, mi, ss, sod, tps>>
+cal == <<day, wd, d, m, y, ms, mw, ys, yw, dps, hh, mi, ss, sod, tps>>
 
 S == INSTANCE Sha1 WITH Lens <- {}, Kinds <- {}, Mut <- {}, len <- 0, kind <- 0, g <- 0, rem <- 0, h <- <<>>, phase <- ""
 B == INSTANCE Base64 WITH Dev <- {}, text <- <<>>, gi <- 0, out <- <<>>, res <- ""
@@ -42,8 +42,9 @@ Consume == /\ l <= Len(Rec)
            /\ l' = l + 1
            /\ bad' = IF Good(Rec[l]) \/ Len(bad) >= 20 THEN bad ELSE Append(bad, l)
            /\ UNCHANGED cal
+\* the record's day lies after the current month: go on by a whole year while it lies beyond this year, else by a month
 Advance == /\ l <= Len(Rec) /\ Rec[l].k = "date" /\ Rec[l].n >= ms + D!DaysIn(m, y)
-           /\ D!Month_Jump
+           /\ IF Rec[l].n >= ys + D!YearLen(y) /\ y < 9999 THEN D!Year_Jump ELSE D!Month_Jump
            /\ UNCHANGED <<l, bad>>
 Next == Consume \/ Advance
 Spec == Init /\ [][Next]_<<cal, l, bad>>
@@ -52,5 +53,5 @@ AllAgree == (l = Len(Rec) + 1) =>
               \/ bad = <<>>
               \/ PrintT(ToJson([rejected |-> [i \in 1..Len(bad) |-> Rec[bad[i]]]])) /\ FALSE
 \* (not in Trace_Codec.cfg: MC_HttpDate_months.cfg checks the same walk with these invariants)
-CalendarOK == D!JumpAgrees /\ D!AlgoAgrees
+CalendarOK == D!JumpAgrees /\ D!YearAgrees /\ D!AlgoAgrees
 =============================================================================
